@@ -108,7 +108,7 @@ func init() {
 		Gen: genC07,
 		Run: runC07,
 		Rule: "a world is one history of 1-12 Parse/Validate/Collect/clear operations (with WithCtxValue, execution formatters, " +
-			"catching nodes, injected callback panics) followed by a probe call; non-trivial iff the probe received at least one pool object " +
+			"catching nodes, injected callback panics, callbacks that run executions of other schemas before returning) followed by a probe call; non-trivial iff the probe received at least one pool object " +
 			"freed by an earlier operation; distinct by hash of (schema shapes, operation kinds and options, pool/visit decision vectors)",
 	})
 }
@@ -271,6 +271,9 @@ func genC07(r *Rng, tier string) *World {
 		if op.Front == "" && r.P(0.2) {
 			withFront(r, w, &op, true)
 		}
+		if r.P(0.1) {
+			op.Reenter = 1 + r.Intn(4) // one of its callbacks runs executions of its own before returning
+		}
 		if r.P(0.08) {
 			op.PanicAt = 1 + r.Intn(3)
 		} else if r.P(0.05) {
@@ -281,6 +284,9 @@ func genC07(r *Rng, tier string) *World {
 	probe := genExecOp(r, w, cfgs, 0.3)
 	if r.P(0.2) {
 		withFront(r, w, &probe, false)
+	}
+	if r.P(0.3) {
+		probe.Reenter = 1 + r.Intn(4)
 	}
 	ops = append(ops, probe)
 	w.Tasks = [][]Op{ops}
@@ -343,6 +349,9 @@ func runC07(x *X) *Violation {
 			}
 		case "parse", "validate":
 			res := x.Exec(tag, op)
+			if res.NestBad != "" {
+				return &Violation{Class: "C07/nested-execution-wrong-result", Detail: fmt.Sprintf("history op %d: %s", i, res.NestBad)}
+			}
 			if v := checkEdited(op, res, edited, globalCustom); v != nil {
 				return v
 			}
@@ -420,9 +429,30 @@ func runC07(x *X) *Violation {
 	rf := x.Exec(ptag, probe)
 
 	x.Sig.WriteString(fmt.Sprintf("%d ops reused=%d", len(ops), reused))
+	if rp.NestBad != "" {
+		return &Violation{Class: "C07/nested-execution-wrong-result", Detail: "probe: " + rp.NestBad}
+	}
 	if f, d := CompareResults(rp, rf); f != "" {
 		cls := "C07/probe-differs " + f
 		return &Violation{Class: cls, Detail: "after history vs fresh process: " + d}
+	}
+	if rf.Nested > 0 {
+		// the executions a callback ran in between are none of the outer execution's business: the same probe without them
+		x.Probes["nested_executions"]++
+		pg := *probe
+		pg.Reenter = 0
+		x.BuildSchemas()
+		x.FreshRun("g/")
+		for s, l := range forced {
+			if len(s) > 8 && s[2:8] == "visit:" {
+				x.Dec.Forced["g/"+s[2:]] = l
+			}
+		}
+		x.Dec.Benign["g/"] = true
+		rg := x.Exec(ptag, &pg)
+		if f, d := CompareResults(rf, rg); f != "" {
+			return &Violation{Class: "C07/nested-execution-changes-outer-result " + f, Detail: "with vs without executions run by a callback: " + d}
+		}
 	}
 	return nil
 }
